@@ -119,6 +119,18 @@ def sequence_for(fn, P, op, b, i):
     return L, creation, seq
 
 
+_ITEM_VOCAB = None
+
+
+def _item_vocab():
+    global _ITEM_VOCAB
+    if _ITEM_VOCAB is None:
+        import json as _json, os as _os
+        p_ = _os.path.join(_os.path.dirname(_os.path.abspath(__file__)), 'baseline_items.json')
+        _ITEM_VOCAB = set(_json.load(open(p_))) if _os.path.exists(p_) else set()
+    return _ITEM_VOCAB
+
+
 class Canon:
     """canonical, idiom-insensitive rendering of provenance expressions; Vec<u8> builders are rendered as
     the list of their appended elements; sampler calls are numbered by call site (rand#1, rand#2, ...)"""
@@ -188,7 +200,25 @@ class Canon:
                 return str(v) if -(1 << 16) < v < 1 << 16 else hex(v)
         if k == 'const':
             it = const_item(e)
+            if it and (it in _item_vocab() or not _item_vocab()):
+                return last(it)
             if it:
+                # a constant item that is not part of the reviewed vocabulary (e.g. a literal moved into a named
+                # `const`): render it as the value it holds
+                v = const_int(e)
+                if v is None:
+                    fi = self.P.F.items.get(it) if getattr(self.P, 'F', None) is not None else None
+                    if fi is not None:
+                        from .facts import item_int
+                        try:
+                            v = item_int(fi)
+                        except Exception:
+                            v = None
+                if v is not None:
+                    fi = self.P.F.items.get(it) if getattr(self.P, 'F', None) is not None else None
+                    if fi is not None and (fi.get('ty') or '').startswith('['):
+                        return 'arr:%s' % hex(v)
+                    return str(v) if v < 1 << 16 else hex(v)
                 return last(it)
             v = const_int(e)
             if v is not None:
@@ -205,6 +235,10 @@ class Canon:
             inner = strip(e.args[0])
             # `expr?`  ==  branch(expr) as Continue .0
             if e.name == '0' and inner.k == 'field' and inner.name in ('as Continue', 'as Some', 'as Ok'):
+                from .prov import simplify_variant
+                r_ = simplify_variant(e)
+                if r_ is not e:
+                    return self.c(r_)
                 src = strip(inner.args[0])
                 if src.k == 'call' and last(src.name) == 'branch':
                     return 'try(%s)' % self.c(src.args[0])
@@ -228,6 +262,9 @@ class Canon:
                     a0 = strip(a0.args[0])
                 if a0.k == 'aggr' and a0.name in ('Option::Some', 'Result::Ok') and a0.args:
                     return self.c(a0.args[0])
+            if ln == 'concat' and len(e.args) == 1 and strip(e.args[0]).k == 'aggr' and strip(e.args[0]).name == 'array':
+                # [a, b, c].concat()  ==  a builder that appends a, b, c
+                return '[' + ', '.join(self.c(a) for a in strip(e.args[0]).args) + ']'
             if ln in self.SAMPLERS:
                 key = e.site
                 if key not in self.rand:
@@ -291,6 +328,9 @@ def preimage(fn, P, block, argi=0, canon=None):
     if bo is None:
         t = fn.blocks[block]['term']
         e = norm(P.operand(t['args'][argi], block, len(fn.blocks[block]['stmts'])))
+        es = strip(e)
+        if es.k == 'call' and last(es.name) == 'concat' and len(es.args) == 1 and strip(es.args[0]).k == 'aggr' and strip(es.args[0]).name == 'array':
+            return [cn.c(a) for a in strip(es.args[0]).args], None
         return None, cn.c(e)
     return cn.seq(*bo), None
 
@@ -330,22 +370,25 @@ def branch_sequences(fn, P, op, b, i, canon):
     dom = fn.dominators()
     for ch in chains:
         conds = []
-        first = ch[0]
-        for sb in sorted(dom.get(first, ()), key=lambda z: len(dom.get(z, ()))):
-            t = fn.blocks[sb]['term']
-            if t['k'] != 'switch' or sb == first:
-                continue
-            if cb is not None and sb not in fn.reachable(cb):
-                continue
-            succs = fn.succ(sb)
-            leading = [s2 for s2 in succs if first in fn.reachable(s2, removed_blocks={sb}) or s2 == first]
-            if len(leading) == len(succs):
-                continue
-            vals = [v for v, tb in t['targets'] if tb in leading]
-            if t['otherwise'] in leading:
-                vals.append('otherwise')
-            e = norm(P.operand(t['op'], sb, len(fn.blocks[sb]['stmts'])))
-            conds.append('%s=%s' % (canon.c(e), '|'.join(vals)))
+        # the switches that select ANY append of the chain (a common prefix may sit before the branch)
+        for first in ch:
+            for sb in sorted(dom.get(first, ()), key=lambda z: len(dom.get(z, ()))):
+                t = fn.blocks[sb]['term']
+                if t['k'] != 'switch' or sb == first:
+                    continue
+                if cb is not None and sb not in fn.reachable(cb):
+                    continue
+                succs = fn.succ(sb)
+                leading = [s2 for s2 in succs if first in fn.reachable(s2, removed_blocks={sb}) or s2 == first]
+                if len(leading) == len(succs):
+                    continue
+                vals = [v for v, tb in t['targets'] if tb in leading]
+                if t['otherwise'] in leading:
+                    vals.append('otherwise')
+                e = norm(P.operand(t['op'], sb, len(fn.blocks[sb]['stmts'])))
+                c_ = '%s=%s' % (canon.c(e), '|'.join(vals))
+                if c_ not in conds:
+                    conds.append(c_)
         out.append((conds, canon.seq(creation, [byb[x] for x in ch])))
     return out
 
